@@ -43,8 +43,8 @@ macro_rules! vfail {
 pub static WAKES: AtomicUsize = AtomicUsize::new(0);
 pub static CLONES: AtomicUsize = AtomicUsize::new(0);
 /// Observation points for "what is visible at the moment of the wake-up" (C12).
-pub static mut WAKE_OBS_CREDIT: *const core::sync::atomic::AtomicU32 = core::ptr::null();
-pub static mut WAKE_OBS_CLOSED: *const core::sync::atomic::AtomicBool = core::ptr::null();
+pub static mut WAKE_OBS_CREDIT: *const crate::loom::AtomicU32 = core::ptr::null();
+pub static mut WAKE_OBS_CLOSED: *const crate::loom::AtomicBool = core::ptr::null();
 pub static mut WAKE_SEEN_CREDIT: u32 = 0;
 pub static mut WAKE_SEEN_CLOSED: bool = false;
 fn cw_raw() -> RawWaker {
@@ -57,10 +57,10 @@ fn cw_raw() -> RawWaker {
         unsafe {
             if WAKES.load(Ordering::Relaxed) == 0 {
                 if !WAKE_OBS_CREDIT.is_null() {
-                    WAKE_SEEN_CREDIT = (*WAKE_OBS_CREDIT).load(Ordering::Acquire);
+                    WAKE_SEEN_CREDIT = (*WAKE_OBS_CREDIT).raw().load(Ordering::Acquire);
                 }
                 if !WAKE_OBS_CLOSED.is_null() {
-                    WAKE_SEEN_CLOSED = (*WAKE_OBS_CLOSED).load(Ordering::Acquire);
+                    WAKE_SEEN_CLOSED = (*WAKE_OBS_CLOSED).raw().load(Ordering::Acquire);
                 }
             }
         }
@@ -118,7 +118,14 @@ pub struct SchedTarget {
     pub n: u32,
     pub task: *const TTask,
     pub task_fn: Option<fn(*const TTask, u32)>,
+    /// kind 3 = one poll of the writer (`poll_obtain_write_permission`) on `stream`, through a fn
+    /// pointer supplied by the stream harness module (the method is private to stream.rs); the
+    /// result is left in `WRITER_RESULT`
+    pub stream: *mut MuxStream,
+    pub writer_fn: Option<fn(*mut MuxStream) -> u8>,
 }
+/// 0 pending, 1 Ready(Some) = credit taken, 2 Ready(None) = closed; 9 = not run
+pub static WRITER_RESULT: core::sync::atomic::AtomicU8 = core::sync::atomic::AtomicU8::new(9);
 unsafe impl Send for SchedTarget {}
 pub fn sched_action() {
     let g = SCHED_TARGET.lock().unwrap();
@@ -130,12 +137,161 @@ pub fn sched_action() {
             }
             return;
         }
+        if t.kind == 3 {
+            if let Some(f) = t.writer_fn {
+                WRITER_RESULT.store(f(t.stream), Ordering::Relaxed);
+            }
+            return;
+        }
         let d = unsafe { &*t.data };
         if t.kind == 0 {
             d.acknowledge(t.n);
         } else {
             d.disallow_write();
         }
+    }
+}
+
+// ---------------------------------------------------------------------------------------
+// Instrumented atomics (C12 at the granularity of individual atomic operations).  In the
+// scratch copy `crate::loom::{AtomicU32, AtomicBool}` are these wrappers (lib/vdriver.py rewrites
+// the re-export in loom.rs under cfg(kani)): every operation first passes an *atomic scheduling
+// point*.  A point is a no-op unless a harness armed it; the `ATOM_FIRE_AT`-th point runs the
+// other party's whole operation (`sched_action`) before the atomic operation takes effect.
+// `compare_exchange_weak` is modelled by the strong form (no spurious failure); `fetch_update`
+// is the load / compare-exchange loop std documents, so the other party can run between the two.
+// ---------------------------------------------------------------------------------------
+pub static ATOM_ARMED: core::sync::atomic::AtomicBool = core::sync::atomic::AtomicBool::new(false);
+pub static ATOM_POINTS: AtomicUsize = AtomicUsize::new(0);
+pub static ATOM_FIRE_AT: AtomicUsize = AtomicUsize::new(usize::MAX);
+pub static ATOM_FIRED: AtomicUsize = AtomicUsize::new(0);
+pub fn atom_arm(fire_at: usize) {
+    ATOM_POINTS.store(0, Ordering::Relaxed);
+    ATOM_FIRED.store(0, Ordering::Relaxed);
+    ATOM_FIRE_AT.store(fire_at, Ordering::Relaxed);
+    ATOM_ARMED.store(true, Ordering::Relaxed);
+}
+pub fn atom_disarm() {
+    ATOM_ARMED.store(false, Ordering::Relaxed);
+}
+#[inline(never)]
+pub fn atomic_point() {
+    if ATOM_ARMED.load(Ordering::Relaxed) {
+        let i = ATOM_POINTS.fetch_add(1, Ordering::Relaxed);
+        if i == ATOM_FIRE_AT.load(Ordering::Relaxed) {
+            // not re-entrant: the injected operation performs atomic operations as well
+            ATOM_ARMED.store(false, Ordering::Relaxed);
+            ATOM_FIRED.fetch_add(1, Ordering::Relaxed);
+            sched_action();
+            ATOM_ARMED.store(true, Ordering::Relaxed);
+        }
+    }
+}
+pub struct VAtomicU32(core::sync::atomic::AtomicU32);
+impl VAtomicU32 {
+    pub const fn new(v: u32) -> Self {
+        Self(core::sync::atomic::AtomicU32::new(v))
+    }
+    /// harness-side observation without a scheduling point
+    pub fn raw(&self) -> &core::sync::atomic::AtomicU32 {
+        &self.0
+    }
+    pub fn load(&self, o: Ordering) -> u32 {
+        atomic_point();
+        self.0.load(o)
+    }
+    pub fn store(&self, v: u32, o: Ordering) {
+        atomic_point();
+        self.0.store(v, o)
+    }
+    pub fn swap(&self, v: u32, o: Ordering) -> u32 {
+        atomic_point();
+        self.0.swap(v, o)
+    }
+    pub fn fetch_add(&self, v: u32, o: Ordering) -> u32 {
+        atomic_point();
+        self.0.fetch_add(v, o)
+    }
+    pub fn fetch_sub(&self, v: u32, o: Ordering) -> u32 {
+        atomic_point();
+        self.0.fetch_sub(v, o)
+    }
+    pub fn compare_exchange(&self, c: u32, n: u32, s: Ordering, f: Ordering) -> Result<u32, u32> {
+        atomic_point();
+        self.0.compare_exchange(c, n, s, f)
+    }
+    pub fn compare_exchange_weak(&self, c: u32, n: u32, s: Ordering, f: Ordering) -> Result<u32, u32> {
+        atomic_point();
+        self.0.compare_exchange(c, n, s, f)
+    }
+    pub fn fetch_update<F: FnMut(u32) -> Option<u32>>(&self, s: Ordering, fo: Ordering, mut f: F) -> Result<u32, u32> {
+        let mut prev = self.load(fo);
+        while let Some(next) = f(prev) {
+            match self.compare_exchange_weak(prev, next, s, fo) {
+                x @ Ok(_) => return x,
+                Err(p) => prev = p,
+            }
+        }
+        Err(prev)
+    }
+    pub fn get_mut(&mut self) -> &mut u32 {
+        self.0.get_mut()
+    }
+    pub fn into_inner(self) -> u32 {
+        self.0.into_inner()
+    }
+}
+impl core::fmt::Debug for VAtomicU32 {
+    fn fmt(&self, f: &mut core::fmt::Formatter<'_>) -> core::fmt::Result {
+        f.write_str("AtomicU32")
+    }
+}
+pub struct VAtomicBool(core::sync::atomic::AtomicBool);
+impl VAtomicBool {
+    pub const fn new(v: bool) -> Self {
+        Self(core::sync::atomic::AtomicBool::new(v))
+    }
+    pub fn raw(&self) -> &core::sync::atomic::AtomicBool {
+        &self.0
+    }
+    pub fn load(&self, o: Ordering) -> bool {
+        atomic_point();
+        self.0.load(o)
+    }
+    pub fn store(&self, v: bool, o: Ordering) {
+        atomic_point();
+        self.0.store(v, o)
+    }
+    pub fn swap(&self, v: bool, o: Ordering) -> bool {
+        atomic_point();
+        self.0.swap(v, o)
+    }
+    pub fn fetch_or(&self, v: bool, o: Ordering) -> bool {
+        atomic_point();
+        self.0.fetch_or(v, o)
+    }
+    pub fn fetch_and(&self, v: bool, o: Ordering) -> bool {
+        atomic_point();
+        self.0.fetch_and(v, o)
+    }
+    pub fn compare_exchange(&self, c: bool, n: bool, s: Ordering, f: Ordering) -> Result<bool, bool> {
+        atomic_point();
+        self.0.compare_exchange(c, n, s, f)
+    }
+    pub fn compare_exchange_weak(&self, c: bool, n: bool, s: Ordering, f: Ordering) -> Result<bool, bool> {
+        atomic_point();
+        self.0.compare_exchange(c, n, s, f)
+    }
+    pub fn get_mut(&mut self) -> &mut bool {
+        self.0.get_mut()
+    }
+    pub fn into_inner(self) -> bool {
+        self.0.into_inner()
+    }
+}
+impl core::fmt::Debug for VAtomicBool {
+    fn fmt(&self, f: &mut core::fmt::Formatter<'_>) -> core::fmt::Result {
+        f.write_str("AtomicBool")
     }
 }
 
